@@ -1,8 +1,8 @@
 package scen
 
 import (
-	"encoding/binary"
 	"bytes"
+	"encoding/binary"
 	"fmt"
 	"path"
 	"sort"
@@ -159,18 +159,18 @@ func IntactExponents(b []byte, setID [16]byte, sliceSize int) []uint32 {
 
 // P2Truth is the reference view of a (possibly damaged) directory.
 type P2Truth struct {
-	Intact      []bool // per input file: present and byte-identical
-	AllIntact   bool
-	Present     []bool
-	Scan        scan.Result
-	Missing     []int // global slice indices (recovery-set order) not findable
-	K           int
+	Intact            []bool // per input file: present and byte-identical
+	AllIntact         bool
+	Present           []bool
+	Scan              scan.Result
+	Missing           []int // global slice indices (recovery-set order) not findable
+	K                 int
 	DamagedFileSlices int // slices belonging to files that are not intact
-	Total       int
-	Exps        []uint32 // distinct intact exponents available beside the index
-	N           int
-	LowestSingular bool // system on the K lowest exponents is singular
-	AnySingular    bool // some K-subset of the available exponents is singular (or not checked)
+	Total             int
+	Exps              []uint32 // distinct intact exponents available beside the index
+	N                 int
+	LowestSingular    bool // system on the K lowest exponents is singular
+	AnySingular       bool // some K-subset of the available exponents is singular (or not checked)
 }
 
 // Truth computes the reference view of fs for set s.
@@ -361,12 +361,13 @@ func (s *P2Set) CheckWrites(o *P2Obs) [][2]string {
 
 // ApplyDmg applies a damage operator, including the set-aware ones that
 // act on recovery files:
-//   badrec v     replace recovery file v by a well-formed file (reference writer) whose blocks carry wrong data
-//   fliprec v    flip one payload byte of recovery file v (packet MD5 then fails)
-//   truncrec v   cut recovery file v in the middle of its last packet
-//   foreignrec   add s.vol77+01.par2 holding packets of a different recovery set
-//   emptyrec v   make recovery file v empty
-//   duprec v     copy recovery file v to <base>.backup<v>.par2 (the same blocks stored twice)
+//
+//	badrec v     replace recovery file v by a well-formed file (reference writer) whose blocks carry wrong data
+//	fliprec v    flip one payload byte of recovery file v (packet MD5 then fails)
+//	truncrec v   cut recovery file v in the middle of its last packet
+//	foreignrec   add s.vol77+01.par2 holding packets of a different recovery set
+//	emptyrec v   make recovery file v empty
+//	duprec v     copy recovery file v to <base>.backup<v>.par2 (the same blocks stored twice)
 func (s *P2Set) ApplyDmg(fs *envfs.FS, d Dmg, seed int64) {
 	switch d.Op {
 	case "badrec":
